@@ -130,3 +130,16 @@ func lemma_c13_decode_other(r *DecodeResult, p []byte) {
 	gocv_assert(err == nil, "accepted")
 	gocv_assert(len(fd.data) == 0, "unrequested-field-not-recorded")
 }
+
+// a packed field split over two records: both runs are expanded, in wire order
+func lemma_c13_uint64s_two_runs(fd *FieldData) {
+	gocv_assume(fd != nil && len(fd.data) == 2 && fd.wt == csproto.WireTypeLengthDelimited)
+	gocv_assume(!fd.unsafe && fd.uint64Slice == nil)
+	d0, d1 := fd.data[0], fd.data[1]
+	gocv_assume(varintStrict(d0, 0) && varintLen(d0, 0) == len(d0))
+	gocv_assume(varintStrict(d1, 0) && varintLen(d1, 0) == len(d1))
+	s, err := fd.UInt64Values()
+	gocv_assert(err == nil, "accepted")
+	gocv_assert(len(s) == 2, "both-runs-expanded")
+	gocv_assert(s[0] == varintVal(d0, 0) && s[1] == varintVal(d1, 0), "runs-in-wire-order")
+}
